@@ -482,7 +482,10 @@ def parse_mir(text):
             while lines[i] != '    }':
                 s = lines[i].strip()
                 if s:
-                    body.append(parse_statement(s[:-1] if s.endswith(';') else s))
+                    try:
+                        body.append(parse_statement(s[:-1] if s.endswith(';') else s))
+                    except Exception as ex:          # an unknown form is only a problem if it is executed
+                        body.append(('unsupported', '%s   [%s]' % (s[:200], str(ex)[:80])))
                 i += 1
             cur.blocks[name] = body
             i += 1
